@@ -1151,7 +1151,7 @@ def rule_accumulate(ctx, m, files=("Digit.hpp",), rid="PR-accumulate"):
     return r
 
 
-def rule_rvalue_use(ctx, m, rid="RV-use", floor=100):
+def rule_rvalue_use(ctx, m, rid="RV-use", floor=100, files=None):
     """RV-use: a parameter taken by rvalue reference is the caller's object given away.  Inside the function it is an lvalue, so
     naming it where a value is wanted (constructor argument, right-hand side, plain call argument) COPIES it and leaves the caller's
     object full -- the move overload then behaves like the copy overload (GroupBy re-uses one scratch object and relies on the
@@ -1159,7 +1159,7 @@ def rule_rvalue_use(ctx, m, rid="RV-use", floor=100):
     or an argument of a helper when the function afterwards empties the parameter itself (p.Reset() / p.Clear())."""
     r = Rule(rid, "an rvalue-reference parameter is only moved from, inspected through its members, or emptied explicitly; it is never copied", floor=floor)
     for f in m.functions:
-        if f.inst or not f.cfg:
+        if f.inst or not f.cfg or (files and not any(f.file.endswith("/" + x) for x in files)):
             continue
         rps = {p["d"]: p for p in f.params if p.get("rref")}
         if not rps:
